@@ -552,6 +552,90 @@ fn body_panic_str_bad_index<const CORE: bool>() {
     mem::forget(s);
 }
 
+/// `FixedBumpString::split_off` / `BumpBox<str>::split_off` of every INTERIOR non-empty range for len <= 6 (20 concrete
+/// shapes, so that std's rotate runs on constant lengths; the 6 bytes are symbolic ASCII). Lengths 5 and 6 matter: for
+/// len <= 4 every interior range has head_len == range_len or tail_len == range_len, where the possible rotation
+/// mix-ups coincide (third-round seeded change: rotate_right(head_len) instead of rotate_right(range_len)).
+/// Oracle: the split-off part is orig[s..e], the rest is orig[..s] ++ orig[e..], both valid UTF-8 (ASCII), capacities add up.
+fn body_str_split_off_interior<const BOXED: bool>() {
+    let b: [u8; 6] = kani::any();
+    kani::assume(b[0] < 0x80 && b[1] < 0x80 && b[2] < 0x80 && b[3] < 0x80 && b[4] < 0x80 && b[5] < 0x80);
+    let shape: u8 = kani::any();
+    kani::assume(shape < 20);
+    let mut buf: [MaybeUninit<u8>; 6] = [const { MaybeUninit::uninit() }; 6];
+    macro_rules! arm {
+        ($len:literal, $s:literal, $e:literal) => {{
+            unsafe {
+                core::ptr::copy_nonoverlapping(b.as_ptr(), buf.as_mut_ptr() as *mut u8, 6);
+                let ptr = NonNull::new_unchecked(buf.as_mut_ptr());
+                let boxed: BumpBox<'_, [MaybeUninit<u8>]> = BumpBox::from_raw(NonNull::slice_from_raw_parts(ptr, 6));
+                let mut v: FixedBumpVec<'_, u8> = FixedBumpVec::from_uninit(boxed);
+                v.set_len($len);
+                let mut s = FixedBumpString::from_utf8_unchecked(v);
+                let exp_off: [u8; $e - $s] = core::array::from_fn(|k| b[$s + k]);
+                let exp_rest: [u8; $len - ($e - $s)] = core::array::from_fn(|k| if k < $s { b[k] } else { b[k + ($e - $s)] });
+                if BOXED {
+                    let mut bx = s.into_boxed_str();
+                    let off = bx.split_off($s..$e);
+                    assert!(off.as_bytes() == &exp_off[..], "C09/C16: BumpBox<str>::split_off part differs from the text of the range");
+                    assert!(bx.as_bytes() == &exp_rest[..], "C09/C16: BumpBox<str>::split_off left the wrong remainder");
+                    mem::forget(off);
+                    mem::forget(bx);
+                } else {
+                    let off = s.split_off($s..$e);
+                    assert!(off.as_bytes() == &exp_off[..], "C09/C16: FixedBumpString::split_off part differs from the text of the range");
+                    assert!(s.as_bytes() == &exp_rest[..], "C09/C16: FixedBumpString::split_off left the wrong remainder");
+                    assert!(off.capacity() + s.capacity() == 6 && off.capacity() >= off.len() && s.capacity() >= s.len(), "C16: string capacities do not add up after an interior split_off");
+                    mem::forget(off);
+                    mem::forget(s);
+                }
+            }
+        }};
+    }
+    kani::cover!(shape == 4, "len 5, 1..3: nearer the front, head_len != range_len");
+    kani::cover!(shape == 8, "len 5, 2..4: nearer the back, tail_len != range_len");
+    match shape {
+        0 => arm!(3, 1, 2),
+        1 => arm!(4, 1, 2),
+        2 => arm!(4, 1, 3),
+        3 => arm!(4, 2, 3),
+        4 => arm!(5, 1, 3),
+        5 => arm!(5, 1, 2),
+        6 => arm!(5, 1, 4),
+        7 => arm!(5, 2, 3),
+        8 => arm!(5, 2, 4),
+        9 => arm!(5, 3, 4),
+        10 => arm!(6, 1, 2),
+        11 => arm!(6, 1, 3),
+        12 => arm!(6, 1, 4),
+        13 => arm!(6, 1, 5),
+        14 => arm!(6, 2, 3),
+        15 => arm!(6, 2, 4),
+        16 => arm!(6, 2, 5),
+        17 => arm!(6, 3, 4),
+        18 => arm!(6, 3, 5),
+        _ => arm!(6, 4, 5),
+    }
+    kani::cover!(true, "END: harness ran to completion");
+}
+
+// the REAL std rotate runs here (no ptr_rotate stub): lengths are constants per arm
+#[kani::proof]
+#[kani::unwind(10)]
+#[kani::stub(core::ptr::copy, crate::stubs::copy_stub)]
+#[kani::stub(core::ptr::copy_nonoverlapping, crate::stubs::copy_stub)]
+fn str_split_off_interior() {
+    body_str_split_off_interior::<false>();
+}
+
+#[kani::proof]
+#[kani::unwind(10)]
+#[kani::stub(core::ptr::copy, crate::stubs::copy_stub)]
+#[kani::stub(core::ptr::copy_nonoverlapping, crate::stubs::copy_stub)]
+fn boxstr_split_off_interior() {
+    body_str_split_off_interior::<true>();
+}
+
 /// split_off / drain with a range whose start or end is out of bounds, reversed, or NOT on a char boundary - including
 /// EMPTY ranges inside a multi-byte character - must panic on every path (documented: "Panics if the starting point or
 /// end point do not lie on a char boundary, or if they're out of bounds"; std's `drain` / `split_off` do). The checks
